@@ -71,6 +71,13 @@ func (t *timeTicker[T]) Start(ctx context.Context) error {
 			// so it is run in a separate goroutine to not block further ticks
 			// Exploratory: Add some control to limit the number of goroutines spawned
 			go func(c context.Context, t Tick[T], o observer[T], l *log.Logger) {
+				// a panic in this goroutine is out of reach of the service
+				// recoverer and would take the whole process down
+				defer func() {
+					if r := recover(); r != nil {
+						l.Printf("recovered from panic in observer: %v", r)
+					}
+				}()
 				if err := o.Process(c, t); err != nil {
 					l.Printf("error processing observer: %s", err.Error())
 				}
